@@ -203,3 +203,48 @@ def rule_run_callback(ctx, rr, rid_binding=None, rid_slots=None, rid_release=Non
         ctx.ob(rid_bracket, f"{f.short}/bracket-on-failure", okf, loc(f),
                "evaluated: a failing call reports running then failed (once), and the failure propagates" if okf else
                f"evaluated with a failing call: notifications {evf.events!r}, raised {err!r}")
+
+
+def rule_frames_of_created_calls(ctx, rid, rr):
+    """C19.S2 by evaluation: each public plan-building method captures the stack frame exactly once, and every Call node
+    it creates - the call itself and the implicit gather / unpack / getitem calls - carries that one frame.  Independent of
+    how the frame is threaded through the implementation (parameter, closure, helper object)."""
+    from .rewriterules import World
+    m = ctx.model
+    planc = m.one_class("Plan", "EVAL")
+    out = []
+    for label, meth, mk_args in (
+            ("call", "call", lambda w, x, y, fn: ([fn, x, [x, y]], {"k": {"a": y}})),
+            ("gather", "gather", lambda w, x, y, fn: ([(x, [y])], {})),
+            ("unpack", "unpack", lambda w, x, y, fn: ([x, 2], {}))):
+        w = World(m, rr)
+        count = [0]
+
+        def gsf(*a, _c=count):
+            _c[0] += 1
+            return f"F#{_c[0]}"
+        w.interp.stubs["get_stack_frame"] = Stub("get_stack_frame", gsf)
+        w.interp.ext["inspect.signature"] = lambda fn_: Obj(None, {"bind": Stub("bind", lambda *a, **k: None)}, name="signature")
+        w.interp.ext.setdefault("builtins.callable", lambda x_: True)
+        w.interp.stubs["assert_can_bind"] = Stub("assert_can_bind", lambda *a, **k: None)
+        w.interp.stubs["assert_is_callable"] = Stub("assert_is_callable", lambda *a, **k: None)
+        w.interp.stubs["assert_is_instance"] = Stub("assert_is_instance", lambda *a, **k: None)
+        x, y = w.call("x"), w.call("y")
+        before = list(w.g._nodes)
+        f = planc.methods.get(meth)
+        if f is None:
+            raise AnalysisError(f"Plan.{meth} not found")
+        args, kwargs = mk_args(w, x, y, Stub("user_fn", None))
+        try:
+            w.interp.call_func(f, None, args, kwargs, bound_self=w.plan)
+        except AbsRaise as e:
+            raise AnalysisError(f"abstract evaluation of Plan.{meth} raised {e.value!r}")
+        new_calls = [n for n in w.g._nodes if n not in before and isinstance(n, Obj) and n.cls is not None and n.cls.name == "Call"]
+        frames = [n.attrs.get("stack_frame") for n in new_calls]
+        ok = count[0] == 1 and bool(new_calls) and all(fr == "F#1" for fr in frames)
+        ctx.ob(rid, f"Plan.{meth}/one-frame-for-all-created-calls", ok, loc(f),
+               f"evaluated: the frame is captured once and all {len(new_calls)} calls created by plan.{meth}(...) carry it" if ok else
+               f"evaluated plan.{meth}(...) on a structured argument: get_stack_frame was called {count[0]} time(s) and the created calls carry "
+               f"frames {frames}: some created call is attributed to another line (or to a line inside uberjob)")
+        out.append(ok)
+    return all(out)
